@@ -82,7 +82,7 @@ func init() {
 	})
 	register(&PropSpec{
 		ID: "C10", Level: "exploration",
-		Rule:        "codec level: generated values (10 content classes, sizes 1..4 MB incl. the 256/10K thresholds) through CCompress->DecompressSafe/CDecompressSafe and Compress(level 1,3)->DecompressSafe (+level 3 -> CDecompressSafe); hostile inputs (random bytes, mutated and truncated valid streams, self-consistent headers with random payload and arbitrary claimed size) to both safe decompressors in an asan-instrumented child, each input written to disk before the call; store level: see db.c10 events; distinct = (content class x size class x compressed/stored) and (hostile kind x outcome) signatures",
+		Rule:        "codec level: generated values (10 content classes, sizes 1..4 MB incl. the 256/10K thresholds) through CCompress->DecompressSafe/CDecompressSafe and Compress(level 1,3)->DecompressSafe (+level 3 -> CDecompressSafe); hostile inputs (random bytes, mutated and truncated valid streams, self-consistent headers with random payload and arbitrary claimed size) to both safe decompressors in an asan-instrumented child, each input written to disk before the call; store level (db.c10): values on both sides of every compression decision (record <=/> 256 bytes, 10 KB probe, compressible/incompressible head, client-compressed flag, not-compress content types) set, read from the buffer, after flush and after restarts with all / tree-only / split index files removed; bytes, flags and meta-get fields judged by the reference map, and the value hash in the item listing of the key's leaf compared with the hash of the uncompressed bytes after the set and again for every live key after each restart (tree rebuilt from hints, hints rebuilt from data); distinct = (content class x size class x compressed/stored) and (hostile kind x outcome) signatures",
 		Assumptions: []string{"asan instruments quicklz.c (cgo, go build -asan); heap damage that asan's red zones do not see is not detected"},
 		Plan: func(tier string, seed uint64) []Job {
 			var jobs []Job
@@ -241,7 +241,7 @@ func init() {
 	})
 	register(&PropSpec{
 		ID: "C08", Level: "exploration",
-		Rule:        "tree level: random set / tombstone / remove histories on HTree (1, 16, 256 buckets x heights 2..5, hash pools concentrated under 1..40 leaves so that leaf populations cross the 100-item C search and the 256-key listing thresholds); every listing (all prefixes of sampled key hashes from the bucket root to 16 digits, plus random absent prefixes) is compared with the reference recomputation from the final content, with a second tree built from the same content by another history (node level exactly, item level as sets) and with a tree that went through dump+load; store level: see db.c08 events. distinct = (listing kind x level x height x bucket count x leaf-population class)",
+		Rule:        "tree level: random set / tombstone / remove histories on HTree (1, 16, 256 buckets x heights 2..5, hash pools concentrated under 1..40 leaves so that leaf populations cross the 100-item C search and the 256-key listing thresholds); every listing (all prefixes of sampled key hashes from the bucket root to 16 digits, plus random absent prefixes) is compared with the reference recomputation from the final content, with a second tree built from the same content by another history (node level exactly, item level as sets) and with a third tree that was dumped+loaded at a random point of the history and then received the rest of it; the history tree is itself listed / ListTop-ed at random points (rates from every ~3 to every ~1000 ops, up to 12 of those listings per case also compared with the reference of the content at that moment), so cached node hashes and counts may not depend on when the tree was last listed, dumped or loaded; store level (db.c08): k-tuples of real stores driven to the same final content by different histories (sorted / permuted with noise writes, mid-history listings, restart half way or at the end with tree dump loaded or everything rebuilt, GC + tree rebuild, hint merge + two GC passes), every prefix listing compared with the reference and across histories. distinct = (listing kind x level x height x bucket count x leaf-population class)",
 		Assumptions: []string{"ref/merkle.go states the documented hash/count/listing rules; it was validated against the unchanged tree in the design phase"},
 		Plan: func(tier string, seed uint64) []Job {
 			var jobs []Job
